@@ -1,7 +1,7 @@
 (* C07 — Every string that is not a valid RFC 9535 query is rejected.  Statements only.
    The whole-language statement is kept visible and is NOT proved (partial): *)
 From Coq Require Import List NArith ZArith Bool.
-From JP Require Import Base Ast Peg Dec2Bin Known Build Concrete BuildFacts FragParse FragBuild FragWs GenParse GenBuild FilterParse FilterBuild RejectFacts RejectMore RejectRange RejectBlank RejectTyping.
+From JP Require Import Base Ast Peg Dec2Bin Known Build Concrete BuildFacts FragParse FragBuild FragWs GenParse GenBuild FilterParse FilterBuild RejectFacts RejectMore RejectRange RejectBlank RejectTyping PegAlpha.
 From JP.gen Require Import Grammar.
 Import ListNotations.
 
@@ -197,6 +197,22 @@ Proof.
   - apply refused_arg2; [left; reflexivity|repeat constructor|repeat constructor|right; reflexivity].
   - apply refused_value_fn; [split; [repeat constructor|reflexivity]|reflexivity].
 Qed.
+
+(* ---- for EVERY input string: an accepted query consists of visible characters and TAB / LF / CR only; a control character
+   (below U+0020, other than those three) ANYWHERE in the input - not only at a fixed offset as above - is rejected.  The proof
+   is generic (PegAlpha.v: what a successful match consumes is made of characters its terminals allow) and is instantiated
+   on the grammar generated from the .pest file of this run, whose terminals are checked by computation, rule by rule. *)
+Theorem C07_accepted_has_no_control_chars : forall s q,
+  parse_query s = POk q -> forallb visible_or_blank s = true.
+Proof. exact accepted_has_no_control_chars. Qed.
+Print Assumptions C07_accepted_has_no_control_chars.
+Theorem C07_control_char_anywhere_rejected : forall pre post c,
+  visible_or_blank c = false -> parse_query (pre ++ c :: post) = PErr.
+Proof. exact control_char_anywhere_rejected. Qed.
+Print Assumptions C07_control_char_anywhere_rejected.
+Example C07_control_chars_meant : visible_or_blank 0 = false /\ visible_or_blank 8 = false /\ visible_or_blank 31 = false
+  /\ visible_or_blank 9 = true /\ visible_or_blank 32 = true /\ visible_or_blank 127 = true.
+Proof. repeat split. Qed.
 
 (* near-misses, evaluated inside Coq on the grammar of this run (a test, not the unbounded claim) *)
 Definition rejected (s : str) : bool := match parse_query s with PErr => true | _ => false end.
